@@ -183,7 +183,9 @@ func registerResolver() {
 		fn := []string{"positional", "struct", "*struct", "**struct", "struct mixed with another parameter", "empty"}
 		return sh("HarnessC14", fmt.Sprintf("inputs %s, results %s, %d entries each, error position %d (0 none,1 final,2 first)", fn[inF], fn[outF], k, errPos), 0, inF, outF, k, errPos)
 	}
-	c14s := func(kind int64) Shard { return sh("HarnessC14Static", fmt.Sprintf("static catalogue entry %d", kind), 0, kind) }
+	c14s := func(kind int64) Shard {
+		return sh("HarnessC14Static", fmt.Sprintf("static catalogue entry %d", kind), 0, kind)
+	}
 	register(&PropSpec{
 		ID: "C14", Pkg: "argmapper",
 		Quick: []Shard{c14(1, 5, 2, 0), c14(2, 0, 1, 1), c14(0, 1, 2, 1), c14(5, 2, 2, 0), c14(0, 0, 2, 2), c14(3, 5, 1, 0), c14(4, 5, 1, 0), c14(5, 3, 1, 1), c14(5, 4, 1, 0),
